@@ -124,6 +124,14 @@ Theorem surface_row_guards_shape :
 Proof. vm_compute. reflexivity. Qed.
 Print Assumptions surface_row_guards_shape.
 
+(* --- -diffuse_layer: in calc_all_g (integrate.cpp) the cache of already integrated charge numbers is declared (or cleared) inside the
+   loop over the SURFACE_CB unknowns and looked up inside the species loop, i.e. every charged surface gets its own excess
+   integrals (regenerated loop structure; boolean check on generated data) --- *)
+Theorem diffuse_layer_integrals_cache_is_per_surface :
+  dl_cache_per_surface_ok = true.
+Proof. vm_compute. reflexivity. Qed.
+Print Assumptions diffuse_layer_integrals_cache_is_per_surface.
+
 (* --- PARTIAL w.r.t. the property: the charge rows are tested with an ABSOLUTE tolerance (C/m2, resp. mol of charge with an explicit
    diffuse layer), the property asks 1e-8 RELATIVE; they coincide only for |sigma| >= toler / 1e-8 (with -high_precision:
    toler = 1e-12, i.e. |sigma| >= 1e-4 C/m2 resp. |charge| >= 1e-4 mol).  The site row is relative when ineq_tol <= toler * sites.
@@ -173,6 +181,9 @@ Theorem verified_interval_checkers_sound :
   (forall l A g ions psi eps tk, check_grahame l A g ions psi eps tk = true ->
     let gr := grahame (Q2R eps) (Q2R tk) (to_R (balancing_ion ions :: ions)) (Q2R psi) in
     Rabs (sigma_of_species (to_R l) (Q2R A) (Q2R g) - gr) <= / 100000000 * Rabs gr) /\
+  (forall l A g ions psi eps tk, check_grahame_loose l A g ions psi eps tk = true ->
+    let gr := grahame (Q2R eps) (Q2R tk) (to_R (balancing_ion ions :: ions)) (Q2R psi) in
+    Rabs (sigma_of_species (to_R l) (Q2R A) (Q2R g) - gr) <= / 10000 * Rabs gr) /\
   (forall la lk terms dz psi tk, check_mass_action la lk terms dz psi tk = true ->
     Rabs (Q2R la - (Q2R lk + charge_sum (to_R terms) + log10 (boltzmann (Q2R dz) (Q2R tk) (Q2R psi)))) <= / 100000000) /\
   (forall m equiv sites la, check_activity m equiv sites la = true ->
